@@ -132,6 +132,20 @@ impl Layout {
         assert_eq!(acc, MAX_CHAR + 1);
         Layout { g }
     }
+    /// every block a singleton except one in the middle: 0 and MAX_CHAR are blocks of their own
+    pub fn edges(m: u32) -> Layout {
+        let nb = (m + 1) as usize;
+        let mid = nb / 2;
+        let mut g = Vec::with_capacity(nb + 1);
+        let mut acc = 0u32;
+        for i in 0..nb {
+            g.push(acc);
+            acc += if i == mid { MAX_CHAR + 1 - (nb as u32 - 1) } else { 1 };
+        }
+        g.push(acc);
+        assert_eq!(acc, MAX_CHAR + 1);
+        Layout { g }
+    }
     pub fn lo(&self, i: u32) -> u32 {
         self.g[i as usize]
     }
